@@ -564,11 +564,9 @@ def MQ.sat (q : MQ) (w : String) : Option Bool :=
 
 /-- the boost the term searcher of `w` is built with (search_multi_term.go `makeBatchSearchers`; search_fuzzy.go
 `boostFromDistance`) -/
-def MQ.termBoost (q : MQ) (w : String) : F :=
+def MQ.termBoost (inst : ScoreField F) (q : MQ) (w : String) : F :=
   match q with
-  | .fuzzy _ t _ b =>
-    if w == t then b * 1.0
-    else b * (1.0 - (floatOfNat (osaDist t w) / floatOfNat (min t.length w.length)))
+  | .fuzzy _ t _ b => @fuzzyTermBoost F inst b (osaDist t w) t.length w.length
   | _ => q.boost
 
 /-- `~word/k=tree~word/k=tree…` after the main tree -/
@@ -884,8 +882,26 @@ def c17step (_ : Unit) (op : String) (impl : String) : Unit × String :=
                 String.join (tts.map fun (w, k, tt) => s!"~{w}/{k}=" ++ rb tt)
               let rootFail := (if parseF plainS |>.map (sameBits · t.value) |>.getD false then [] else ["explain-root-vs-score"]) ++
                 (if sameBits es t.value then [] else ["score-field-vs-explanation-root"])
-              let (fails, brs) := termTreeChecks inst t true
               let docs := parseDCorpus false corpus
+              -- matching terms the MODEL gives a boost <= 0 (`fuzzy_boost_nonpos_iff`: distance >= the smaller length)
+              let nonposTerms : List String := match docs.find? (·.id == docid) with
+                | none => []
+                | some d => (((d.fields.filter (·.name == q.field)).flatMap (·.tokens)).eraseDups.filter fun w =>
+                    (q.sat w == some true) && !(q.termBoost inst w > 0))
+              -- hypotheses, ranges and node formulas per constituent: a constituent whose boost is <= 0 BY THE MODEL is judged
+              -- with the sign removed from the hypothesis check only (its node formulas are still checked)
+              let (fails, brs) : List String × List String :=
+                if nonposTerms.isEmpty then termTreeChecks inst t true
+                else
+                  let per := t.children.map fun c => match statOf inst c with
+                    | some st => if st.boost > 0 then termTreeChecks inst c true
+                        else ((match hypFail { st with boost := 1.0 } with | some h => ["assumption-" ++ h] | none => []),
+                              ["hyp-boost-nonpositive-by-model"])
+                    | none => termTreeChecks inst c true
+                  -- node formulas are judged once, on the whole tree
+                  ((((per.map (·.1)).flatten.filter fun x => !x.startsWith "explain-node:") ++ nodeFail (checkNodes inst t) ++
+                      (checkFreqText t)).eraseDups,
+                   (per.map (·.2)).flatten.eraseDups)
               let (partFail, partBr) : List String × List String :=
                 match docs.find? (·.id == docid) with
                 | none => ([], ["model-has-no-such-document"])
@@ -900,7 +916,7 @@ def c17step (_ : Unit) (op : String) (impl : String) : Unit × String :=
                       match tts.find? (·.1 == w) with
                       | none => none
                       | some (_, _, tt) => (statOf inst tt).map fun st =>
-                          (@gExplain inst (@gScorerAvg inst st.k1 st.b st.avgdl (q.termBoost w) st.n st.bigN) st.f st.dl).render
+                          (@gExplain inst (@gScorerAvg inst st.k1 st.b st.avgdl (q.termBoost inst w) st.n st.bigN) st.f st.dl).render
                     match expected with
                     | none => (["parts:missing-term-tree"], [])
                     | some exp =>
@@ -927,7 +943,16 @@ def c17step (_ : Unit) (op : String) (impl : String) : Unit × String :=
                           let distinctSum := @gMsgSum inst (kept.map (·.value))
                           (["parts:duplicate-term-child"] ++ (if sameBits t.value distinctSum then [] else ["multi-term-score-not-sum-of-distinct-parts"]), segBr)
                         else ([s!"parts:multi-term:want={exp.length}-children:got={got.length}"], segBr)
-              (m, verdictOf (m == impl) (rootFail ++ fails ++ partFail) (ulpBranch (logUlp t) :: brs ++ partBr ++ ["m-hit"]))
+              -- a score that is not positive (or not finite): explained ONLY when the parts are exactly the model's and some
+              -- matching term has a model boost <= 0; anything else is its own failure
+              let partsOk := partBr.contains "m-parts-ok"
+              let posFail : List String :=
+                if t.value > 0 && isFinite t.value then []
+                else if partsOk && !nonposTerms.isEmpty && isFinite t.value then ["score-not-positive:fuzzy-term-boost"]
+                else ["score-not-positive"]
+              let posBr := (if !nonposTerms.isEmpty && partsOk then
+                  [if t.value > 0 then "fuzzy-boost-nonpositive-part-positive-hit" else "fuzzy-boost-nonpositive-hit"] else [])
+              (m, verdictOf (m == impl) (rootFail ++ fails ++ partFail ++ posFail) (ulpBranch (logUlp t) :: brs ++ partBr ++ posBr ++ ["m-hit"]))
             | none => ("unparsable-term-trees", "ok")
           | _, _ => ("unparsable-tree", "ok")
         | _, _ => ("unparsable-result", "ok")
